@@ -350,7 +350,7 @@ struct Outcome {
 };
 static const char* const KIND[] = {"ok", "writer-threw", "framing-unparseable", "format-limit-exceeded", "reader-threw", "field-mismatch", "object-count-mismatch", "header-mismatch"};
 
-static bool g_keep_file = false;
+static bool g_keep_file = false;   // replay with C01_KEEP=1: leave the file in the scratch directory
 
 static Outcome cycle(const DataSet& d, const Opt& o) {
     ensure_pools();
@@ -379,7 +379,6 @@ static Outcome cycle(const DataSet& d, const Opt& o) {
         out.file_size = writer.close();
     } catch (const std::exception& ex) {
         out.kind = Outcome::writer_threw; out.key_what = norm_msg(ex.what()); out.detail = std::string("Writer threw: ") + ex.what();
-        unlink(path.c_str());
         return out;
     }
     // ---- independent framing check (PBF files without outer compression)
@@ -417,7 +416,6 @@ static Outcome cycle(const DataSet& d, const Opt& o) {
         read_back(osmium::io::File{bytes.data(), bytes.size(), std::string(FMT[o.fmt]) + ZIP[o.zip]});
         ++C["pbf_outer_compression_reread_from_memory"];
     }
-    if (!g_keep_file) unlink(path.c_str());
     // ---- verdict
     if (o.pbf() && o.zip == 0) {
         if (!out.fr.parsed) { out.kind = Outcome::framing_bad; out.key_what = norm_msg(out.fr.problem); out.detail = "independent framing parser: " + out.fr.problem + (reader_failed ? "; Reader: " + rmsg : ""); return out; }
@@ -545,8 +543,8 @@ static void report(const DataSet& d, const std::vector<size_t>* sel, const Opt& 
 
 static bool same_failure(const Outcome& a, const Outcome& b) { return a.kind == b.kind && (a.kind != Outcome::mismatch || a.key_what == b.key_what); }
 
-// Objects that were found to make a cycle fail, per data set and format: later cycles on the same data set write the sequence
-// without them (so that the rest of the sequence is still compared) and each of them alone (so that it is still reported).
+// Objects that were found to make a cycle fail, per data set and format: later cycles on the same data set (in this process)
+// write the sequence without them, so that the rest of the sequence is still compared under every option vector.
 static std::map<std::string, std::set<size_t>> g_quarantine;
 
 // Runs one case. A failing sequence is reduced to the object that causes the failure (alone, or with its predecessor), the
@@ -603,12 +601,7 @@ static void evaluate(const DataSet& d, const Opt& o, bool is_replay = false) {
         quarantine.insert(culprit);
         active.erase(std::find(active.begin(), active.end(), culprit));
     }
-    for (size_t q : before) {                           // objects quarantined by earlier cycles: each alone
-        if (out_of_domain(d.objs[q], o)) continue;
-        std::vector<size_t> s{q};
-        Outcome r = cycle(select(d, s), o); ++C["quarantined_objects_run_alone"];
-        if (r.kind != Outcome::ok) report(d, &s, o, r);
-    }
+    (void)before;   // quarantined objects are not written again with this data set; the 'one:' data sets run every variant alone
 }
 
 // ================================================================================================
@@ -702,7 +695,7 @@ static std::vector<AObj> variants(char type) {
     if (type == 'w') {
         { AObj o = base; o.refs.clear(); add(o, "nodes:0"); }
         for (int64_t id : IDS) { AObj o = base; o.refs = {{id, Loc{10, 20}}}; add(o, "node-ref:" + int_class(id, I64MAX)); }
-        { AObj o = base; o.refs.clear(); for (int64_t id : IDS) o.refs.push_back({id, Loc{1, 2}}); for (auto it = IDS.rbegin(); it != IDS.rend(); ++it) o.refs.push_back({*it, Loc{3, 4}}); add(o, "node-refs:all-boundary-ids"); }
+        { AObj o = base; o.refs.clear(); for (int64_t id : IDS) if (id != I64MAX) o.refs.push_back({id, Loc{1, 2}}); for (auto it = IDS.rbegin(); it != IDS.rend(); ++it) if (*it != I64MAX) o.refs.push_back({*it, Loc{3, 4}}); add(o, "node-refs:all-boundary-ids-but-the-maximum"); }
         { AObj o = base; o.refs.clear(); for (int i = 0; i < 2000; ++i) o.refs.push_back({1000 + i * (i % 3 == 0 ? -7 : 5), Loc{i, -i}}); add(o, "nodes:2000"); }
         for (const Loc& l : LOCS) { AObj o = base; o.refs = {{5, l}}; add(o, "node-location:" + loc_class(l)); }
         { AObj o = base; o.refs.clear(); int64_t k = 1; for (const Loc& l : LOCS) o.refs.push_back({k++, l}); add(o, "node-locations:all-boundary-locations"); }
@@ -711,7 +704,7 @@ static std::vector<AObj> variants(char type) {
         { AObj o = base; o.members.clear(); add(o, "members:0"); }
         for (char t : {'n', 'w', 'r'}) { AObj o = base; o.members = {{t, 7, "x"}}; add(o, std::string("member-type:") + t); }
         for (int64_t id : IDS) { AObj o = base; o.members = {{'w', id, "outer"}}; add(o, "member-ref:" + int_class(id, I64MAX)); }
-        { AObj o = base; o.members.clear(); int k = 0; for (int64_t id : IDS) o.members.push_back({"nwr"[k++ % 3], id, "r"}); for (auto it = IDS.rbegin(); it != IDS.rend(); ++it) o.members.push_back({"nwr"[k++ % 3], *it, ""}); add(o, "member-refs:all-boundary-ids"); }
+        { AObj o = base; o.members.clear(); int k = 0; for (int64_t id : IDS) if (id != I64MAX) o.members.push_back({"nwr"[k++ % 3], id, "r"}); for (auto it = IDS.rbegin(); it != IDS.rend(); ++it) if (*it != I64MAX) o.members.push_back({"nwr"[k++ % 3], *it, ""}); add(o, "member-refs:all-boundary-ids-but-the-maximum"); }
         { AObj o = base; o.members.clear(); for (int i = 0; i < 300; ++i) o.members.push_back({"nwr"[i % 3], 100 + i * (i % 2 ? 3 : -2), "role" + std::to_string(i % 140)}); add(o, "members:300"); }
         for (const auto& s : strings()) { AObj o = base; o.members = {{'n', 1, s}, {'w', 2, "x"}}; add(o, "member-role:" + str_class(s)); }
     }
@@ -903,17 +896,18 @@ static std::vector<Opt> filter_opts(const std::vector<Opt>& in, bool (*keep)(con
 
 static void part_ofat(const Args& a) {
     std::vector<Group> gs;
-    { Group g; g.bound = "ofat packed: every one-factor variant of n/w/r/c in one sequence per type, and all types interleaved in 4 feed modes, x every option vector";
+    { Group g; g.bound = "ofat packed: every one-factor variant of n/w/r/c in one sequence per type x every option vector";
       for (const char* t : {"n", "w", "r", "c"}) g.names.push_back(std::string("ofat:") + t + ":0");
-      for (int feed = 0; feed < 4; ++feed) g.names.push_back("mixed:" + std::to_string(feed));
       g.opts = all_opts(3); gs.push_back(g); }
-    const int lvl = a.thorough ? 3 : 1;
-    { Group g; g.bound = std::string("ofat singles: each one-factor variant alone x ") + (a.thorough ? "every option vector" : "level-1 option vectors");
+    { Group g; g.bound = std::string("ofat mixed: the variants of all types interleaved, handed over in 4 feed modes x ") + (a.thorough ? "every option vector" : "level-2 option vectors");
+      for (int feed = 0; feed < 4; ++feed) g.names.push_back("mixed:" + std::to_string(feed));
+      g.opts = all_opts(a.thorough ? 3 : 2); gs.push_back(g); }
+    { Group g; g.bound = std::string("ofat singles: each one-factor variant alone x ") + (a.thorough ? "level-1" : "level-0") + " option vectors";
       for (char t : {'n', 'w', 'r', 'c'}) { size_t n = variants(t).size(); for (size_t k = 0; k < n; ++k) g.names.push_back(std::string("one:") + t + ":" + std::to_string(k)); }
-      g.opts = all_opts(lvl); gs.push_back(g); }
-    { Group g; g.bound = std::string("ofat pairs: base object before / after each variant x ") + (a.thorough ? "level-2" : "level-0") + " option vectors";
-      for (char t : {'n', 'w', 'r', 'c'}) { size_t n = variants(t).size(); for (size_t k = 0; k < n; ++k) for (int ord = 0; ord < 2; ++ord) g.names.push_back(std::string("two:") + t + ":" + std::to_string(k) + ":" + std::to_string(ord)); }
-      g.opts = all_opts(a.thorough ? 2 : 0); gs.push_back(g); }
+      g.opts = all_opts(a.thorough ? 1 : 0); gs.push_back(g); }
+    { Group g; g.bound = std::string("ofat pairs: base object before") + (a.thorough ? " / after" : "") + " each variant x " + (a.thorough ? "level-1" : "level-0") + " option vectors";
+      for (char t : {'n', 'w', 'r', 'c'}) { size_t n = variants(t).size(); for (size_t k = 0; k < n; ++k) for (int ord = 0; ord < (a.thorough ? 2 : 1); ++ord) g.names.push_back(std::string("two:") + t + ":" + std::to_string(k) + ":" + std::to_string(ord)); }
+      g.opts = all_opts(a.thorough ? 1 : 0); gs.push_back(g); }
     if (a.thorough) {
       Group g; g.bound = "ofat triples: each variant between two objects of the other types x level-1 option vectors";
       for (char t : {'n', 'w', 'r'}) { size_t n = variants(t).size(); for (size_t k = 0; k < n; ++k) g.names.push_back(std::string("three:") + t + ":" + std::to_string(k)); }
@@ -922,16 +916,16 @@ static void part_ofat(const Args& a) {
 }
 
 static void part_prod(const Args& a) {
-    Group g; g.bound = std::string("reduced product: 2-3 values per field, all combinations, chunks of 96 objects x ") + (a.thorough ? "every option vector" : "level-2 option vectors");
+    Group g; g.bound = std::string("reduced product: 2-3 values per field, all combinations, chunks of 96 objects x ") + (a.thorough ? "every option vector" : "level-1 option vectors");
     for (char t : {'n', 'w', 'r', 'c'}) { uint64_t chunks = (prod_total(t) + PROD_CHUNK - 1) / PROD_CHUNK; for (uint64_t c = 0; c < chunks; ++c) g.names.push_back(std::string("prod:") + t + ":" + std::to_string(c)); }
-    g.opts = all_opts(a.thorough ? 3 : 2);
+    g.opts = all_opts(a.thorough ? 3 : 1);
     run_groups(a, {g});
 }
 
 static void part_blk(const Args& a) {
     std::vector<Group> gs;
-    std::vector<Opt> opts = all_opts(a.thorough ? 2 : 1);
-    if (!a.thorough) {   // quick: add file compression / second pool size for the default vector of each format
+    std::vector<Opt> opts = all_opts(1);
+    {   // add file compression / second pool size for the default vector of each format
         for (const Opt& o : all_opts(0)) for (int zip = 0; zip < 3; ++zip) for (int thr = 1; thr <= 2; ++thr) { if (!zip && thr == 1) continue; if (o.pbf() && (!o.dense || o.pcomp != 1)) continue; Opt x = o; x.zip = zip; x.thr = thr; opts.push_back(x); }
     }
     { Group g; g.bound = "block boundary: 7999/8000/8001 objects of one type";
@@ -973,15 +967,14 @@ static void part_big(const Args& a) {
 static void part_hdr(const Args& a) {
     std::vector<Group> gs;
     std::vector<Opt> opts;
-    for (const Opt& o : all_opts(0)) { if (o.pbf() && !o.dense) continue; for (int zip = 0; zip < 3; ++zip) for (int thr = 1; thr <= 2; ++thr) { Opt x = o; x.zip = zip; x.thr = thr; opts.push_back(x); } }
+    for (const Opt& o : all_opts(0)) { if (o.pbf() && !o.dense) continue; for (int zip = 0; zip < 3; ++zip) for (int thr = 1; thr <= 2; ++thr) { if (zip && thr == 2 && !a.thorough) continue; Opt x = o; x.zip = zip; x.thr = thr; opts.push_back(x); } }
     const size_t nb = header_boxes().size();
     { Group g; g.bound = "header: 0..2 bounding boxes over corner boundary coordinates, with 0 and 1 objects";
-      for (size_t b = 0; b < nb; ++b) for (int n : {0, 1}) g.names.push_back("hdr:" + std::to_string(b) + ":1:" + std::to_string(n));
+      for (size_t b = 0; b < nb; ++b) for (int n : {0, 1}) if (n == 0 || a.thorough || b % 8 == 0) g.names.push_back("hdr:" + std::to_string(b) + ":1:" + std::to_string(n));
       g.opts = opts; gs.push_back(g); }
     { Group g; g.bound = "header: generator strings";
       for (size_t s = 0; s < strings().size() + 2; ++s) g.names.push_back("hdr:1:" + std::to_string(s) + ":" + std::to_string(s % 4));
       g.opts = opts; gs.push_back(g); }
-    (void)a;
     run_groups(a, gs);
 }
 
@@ -1016,7 +1009,7 @@ static void part_bbox(const Args& a) {
     // coordinate pairs: lon k -> (k - 1800000000, k) for k in [0, 1800000000]; lat j -> (j - 900000000, j), j = k / 2
     HeaderCodec hc;
     const uint64_t K = 1800000001ull;
-    const double budget_s = a.thorough ? std::min(a.deadline_s, 420.0) : std::min(a.deadline_s, 12.0);
+    const double budget_s = a.thorough ? std::min(a.deadline_s, 300.0) : std::min(a.deadline_s, 12.0);
     auto t0 = std::chrono::steady_clock::now();
     auto spent = [&] { return std::chrono::duration<double>(std::chrono::steady_clock::now() - t0).count(); };
     uint64_t bad = 0, reported = 0;
